@@ -4,8 +4,8 @@
    under a `_partial` twin (see DESIGN.md section 9). *)
 From Coq Require Import List String Bool Permutation.
 Import ListNotations.
-From DI Require Import Syntax Tokens Bounds Subs Superset Substitute Spec RustSem Group Dispatch Examples ExamplesGroup.
-From DI.proofs Require Import Basics SupersetSound SupersetExact SubstituteProofs BoundsProofs DispatchProofs GroupProofs.
+From DI Require Import Syntax Tokens Bounds Param Subs Superset Substitute Spec RustSem Group Dispatch Examples ExamplesGroup.
+From DI.proofs Require Import Basics SupersetSound SupersetExact SubstituteProofs BoundsProofs DispatchProofs GroupProofs ParamProofs.
 
 (* ===================================================================================== *)
 (* C09 -- header generalisation is exact first-order matching                             *)
@@ -222,3 +222,23 @@ Theorem C05_selected_perm : forall (Q V : Type) keyvals (ms ms' : list (member Q
   Permutation (selected Q V keyvals ms q) (selected Q V keyvals ms' q).
 Proof. exact selected_perm. Qed.
 Print Assumptions C05_selected_perm.
+
+(* ===================================================================================== *)
+(* C13 -- parameter canonicalisation                                                       *)
+(* ===================================================================================== *)
+
+(* distinct parameters get distinct canonical numbers: the indexer hands out strictly
+   increasing numbers, for every block (any size, any nesting of bounds) *)
+Theorem C13_injective_numbering : forall b, NoDup (map snd (indexed (index_block b))).
+Proof. exact index_block_injective. Qed.
+Print Assumptions C13_injective_numbering.
+
+(* non-vacuity: the first block of ExamplesGroup is canonical already: canonicalising it
+   again changes nothing, and its two parameters are numbered 0 and 1 *)
+Example C13_nonvacuous :
+  match ex_blocks with
+  | b :: _ => canon b = b /\ map snd (indexed (index_block b)) = [0; 1]
+  | [] => False
+  end.
+Proof. vm_compute. split; reflexivity. Qed.
+Print Assumptions C13_nonvacuous.
